@@ -543,6 +543,12 @@ int poll(struct pollfd *pfds, nfds_t n, int timeout)
             alarm_add("c05-wait", n ? pfds[0].fd : -1, "poll(timeout %d) inside %s on a non-blocking socket", timeout, cur.api);
         if (p) {
             p->n_blocking_polls++;
+            /* fail-at for poll counts the waiting polls (those with a time-out other than 0) */
+            if (p->fail_at > 0 && p->fail_call == VS_POLL && !p->fail_fired && p->n_blocking_polls == p->fail_at) {
+                p->fail_fired = true; p->fail_fd = n ? pfds[0].fd : -1;
+                vs_note("INJECT poll#%d errno=%d api=%s ep%d", p->fail_at, p->fail_errno, cur.api, cur.ep);
+                errno = p->fail_errno; return -1;
+            }
             if (p->eintr_at > 0 && !p->eintr_fired && p->n_blocking_polls == p->eintr_at) {
                 p->eintr_fired = true;
                 vs_note("INJECT poll#%d EINTR (%s ep%d)", p->eintr_at, cur.api, cur.ep);
